@@ -45,6 +45,7 @@ for o in "${outs[@]}"; do
       [ "$fault" = sigkill_self ] && kill -9 $$
       if [ "$fault" = sigkill_shell ]; then kill -9 $PPID; exit 3; fi   # the bash -c process itself dies by a signal
     fi
+    pad=$(ctlval pad); if [ -n "$pad" ] && [ "$pad" -gt 0 ]; then head -c "$pad" /dev/zero | tr '\0' 'x'; echo; fi
     echo "END $id"
   } > "$o" || exit 4
 done
@@ -53,5 +54,6 @@ if [ -n "$x" ]; then for f in $x; do f=${f//%k/$sig}; mkdir -p "$(dirname "$f")"
 [ "$fault" = exit_after_all ] && exit 3
 if [ "$fault" = exit_after_all_noisy ]; then head -c 200000 /dev/zero | tr '\0' 'x'; echo; exit 3; fi
 if [ "$fault" = sigkill_after_all ]; then kill -9 $$; fi
+ps=$(ctlval postsleep); [ -n "$ps" ] && sleep "$ps"     # keep running after all outputs (pipes) are closed
 log E
 exit 0
